@@ -376,11 +376,11 @@ type BFSCase[St any, Ev any] struct {
 
 type bfsNode[St any, Ev any, N any] struct {
 	startIdx int
-	start St
-	path  []Ev
-	dev   int
-	snap  any
-	has   bool
+	start    St
+	path     []Ev
+	dev      int
+	snap     any
+	has      bool
 }
 
 func safeApply[Ev any, N Node[Ev]](n N, ev Ev) (f *Fail) {
